@@ -39,18 +39,40 @@ def uniq [BEq α] : List α → List α
 section setops
 variable [BEq α] [LT α] [DecidableLT α]
 
+/-- a loop `for v in values: <part> = <rows selected by comparison with v>; <accumulate>` executed
+as the translator found it (`Gen.C08.SelectLoop.acc`): the parts are appended to / put in front of an
+initially empty table, or the table itself is narrowed value after value -/
+def runLoop (acc : Acc) (sel : α → Motl α → Motl α) (vs : List α) (l : Motl α) : Motl α :=
+  match acc with
+  | .append => vs.foldl (fun a v => a ++ sel v l) []
+  | .prepend => vs.foldl (fun a v => sel v l ++ a) []
+  | .narrow => vs.foldl (fun a v => sel v a) l
+  | .bad => []
+
 /-- `get_motl_subset(feature_values, feature_id)`: for each requested value in turn, the rows
-`self.df[feature_id] == value`, concatenated -/
+`self.df[feature_id] == value`, concatenated in the extracted order -/
 def subset (f : Field) (vs : List α) (l : Motl α) : Motl α :=
-  vs.flatMap (fun v => l.filter (fun p => subsetCmp.test (p.get f) v))
+  runLoop subsetLoop.acc (fun v t => t.filter (fun p => subsetCmp.test (p.get f) v)) vs l
 
 /-- `remove_feature(feature_id, feature_values)`: `for value in values: df = df.loc[df[f] != value]` -/
 def remove (f : Field) (vs : List α) (l : Motl α) : Motl α :=
-  vs.foldl (fun acc v => acc.filter (fun p => removeCmp.test (p.get f) v)) l
+  runLoop removeLoop.acc (fun v t => t.filter (fun p => removeCmp.test (p.get f) v)) vs l
 
-/-- `split_by_feature(feature_id)`: one list per unique value, in order of first appearance -/
+/-- the values a loop runs over, as the translator found it -/
+def iterValues (it : Iter) (col : List α) : List α :=
+  match it with
+  | .uniqueFirst => uniq col
+  | .uniqueSorted => (uniq col).mergeSort (fun a b => !decide (b < a))
+  | _ => []
+
+/-- `split_by_feature(feature_id)`: one list per unique value, in the extracted iteration and
+collection order (today: order of first appearance, appended) -/
 def split (f : Field) (l : Motl α) : List (Motl α) :=
-  (uniq (l.map (·.get f))).map (fun v => l.filter (fun p => splitCmp.test (p.get f) v))
+  let parts := (iterValues splitLoop.iter (l.map (·.get f))).map (fun v => l.filter (fun p => splitCmp.test (p.get f) v))
+  match splitLoop.acc with
+  | .append => parts
+  | .prepend => parts.reverse
+  | _ => []
 
 /-- `get_motl_intersection(motl1, motl2, feature_id)`: both operands go through `Motl.load(df)`
 (missing values filled), then the rows of the FIRST list whose id `isin` the ids of the second -/
@@ -125,12 +147,24 @@ def objKeys (l : Motl α) : List (α × α) :=
   ((uniq (l.map (·.tomo_id))).mergeSort (fun a b => !decide (b < a))).flatMap
     (fun t => (uniq ((l.filter (fun p => p.tomo_id == t)).map (·.object_id))).map (fun o => (t, o)))
 
+/-- the same classes with the tomograms in order of first appearance (`groupby(sort=False)`) -/
+def objKeysFirst (l : Motl α) : List (α × α) :=
+  (uniq (l.map (·.tomo_id))).flatMap
+    (fun t => (uniq ((l.filter (fun p => p.tomo_id == t)).map (·.object_id))).map (fun o => (t, o)))
+
+/-- the classes in the group order the translator found (`Gen.C08.objLoop.groupOrder`) -/
+def objKeysCfg (l : Motl α) : List (α × α) :=
+  match objLoop.groupOrder with
+  | .uniqueSorted => objKeys l
+  | .uniqueFirst => objKeysFirst l
+  | _ => []
+
 def keyIdx (keys : List (α × α)) (p : Particle α) : Nat :=
   keys.findIdx (fun k => k.1 == p.tomo_id && k.2 == p.object_id)
 
 /-- the new object number of row `p`: `starting_number` + position of its (tomogram, object) class -/
 def newObjId (nat : Nat → α) (start : α) (l : Motl α) (p : Particle α) : α :=
-  start + nat (keyIdx (objKeys l) p)
+  start + nat (keyIdx (objKeysCfg l) p)
 
 /-- `renumber_objects_sequentially(starting_number)` -/
 def renumberObjects (nat : Nat → α) (start : α) (l : Motl α) : Motl α :=
